@@ -18,6 +18,15 @@ built, edited and sorted is traced and the whole history replayed on `sortW` ove
 per sort: outcome, write trace (which container got which `extend`, in the code's order) and every container's
 sequence.  Identity-keyed transcription `sortIds` (universe may list a node twice) compared on every case.
 Shared Graph objects (also at nesting depth >= 2) and graphs nested in themselves are generated deliberately.
+Full stateful model (`sort.full`, round 3b): the same histories plus, before every sort, what the checking phase (fix D89)
+and the naming half of Graph.extend read - node.graph, node / value / tensor names, whether a backing tensor accepts a
+name, the owner of every node output, counters and name sets of every name authority - replayed on `sortF` / `passF`;
+compared per sort or pass: outcome (ok, ValueError, RecursionError, AssertionError, refused), write trace, containers,
+node.graph and every name, every name authority.  Generator dimensions: nodes / outputs that lost their names, an unnamed
+output backed by a tensor that refuses a name (the sort must be rejected as a whole), node.graph = None, sort while a
+Journal records, TopologicalSortPass (also on models with functions and nested subgraphs) traced and replayed like
+the sorts (per-sort re-link orders recovered from the trace), already sorted nests with captures (fixpoint oracle).
+`heapq` (heapify / heappush / heappop) is compared with its transcription `Model/Heap.lean` step by step.
 """
 from __future__ import annotations
 
@@ -57,6 +66,12 @@ THEOREMS = [
     "IrVerif.Sort.C12_ids_refines",
     "IrVerif.Sort.C12_ids_shared_raises",
     "IrVerif.Sort.C12_ids_equivariant",
+    "IrVerif.Sort.C12_full_no_late",
+    "IrVerif.Sort.C12_full_raise_no_write",
+    "IrVerif.Sort.C12_full_frame",
+    "IrVerif.Sort.C12_full_refines_state",
+    "IrVerif.Sort.C12_state_pass_atomic",
+    "IrVerif.Sort.C12_heappop_min_partial",
 ]
 ASSUMPTIONS = [
     "Function.sort is `self._graph.sort()`: it is modelled as the same sortEffect on the function's graph; "
@@ -67,13 +82,30 @@ ASSUMPTIONS = [
     "abstraction => equal outcome/trace/abstraction; C12_state_deterministic: also up to relabelling of identities); what ties "
     "sortW to the code is the replay of every traced history (construction, edits, sorts: each public DoublyLinkedSet call on "
     "the real objects) on C11's pointer-level containers: outcome, write trace and every container's sequence per sort. The "
-    "hypotheses of C12_state_sort are evaluated per sort and published (state_hyp_* in the distribution). The pass entry "
-    "points are not replayed on the stateful model (passEffect covers them). Not modelled in sortW: the name authority and "
-    "_check_node_can_be_added (fix D89: all checks of all graphs precede the first write; its raise is not an outcome of sortW), "
-    "node.graph (assumed = the graph whose container lists the node, C01)",
-    "heapq on (negative position, node) pairs is modelled as extract-maximum-position; that no two queue entries ever carry "
-    "the same position (so heapq never compares two Node objects) follows from C12_ids_shared_raises / C12_ids_refines "
-    "(no node is queued twice). The dicts keyed by node are modelled twice: by position (sortModel, all correctness theorems) "
+    "hypotheses of C12_state_sort are evaluated per sort and published (state_hyp_* in the distribution)",
+    "the full stateful model sortF (Model/SortFull.lean) adds node.graph (buckets and keys come from node.graph as in the code, "
+    "not from the listing container), node / value / tensor names, name authorities, _check_node_can_be_added in the checking "
+    "phase of fix D89 and again inside Graph.extend / _set_node_graph_to_self_and_assign_names, the Value.name setter renaming "
+    "the backing tensor first; a value is its name, (tensor refuses a name, tensor name) and value.graph as read before the "
+    "sort; two values sharing one tensor object and node outputs that are initializers are outside (a value without a name is "
+    "never an initializer). C12_full_no_late / _raise_no_write / _frame hold for every world; C12_full_refines_state needs "
+    "`Consistent` (node.graph = listing container, evaluated per sort: full_hyp_consistent; false only on the deliberate "
+    "node.graph=None stream). Branch order of the model on a world that has BOTH a shared Graph object and a popped node with "
+    "graph None: ValueError (summary branch) - the code would raise AssertionError first; not generated",
+    "TopologicalSortPass.call is transcribed on the stateful world twice: passF (full: the restore loop is Graph.extend with "
+    "checks and naming; only ValueError is handled - observation D391) and passW (containers only; C12_state_pass_atomic). Both "
+    "are replayed on every traced pass; hypothesis PassHyp (every successful sort of the pass: well-formed tree, order is an "
+    "arrangement of the keys) is evaluated by passHypB per pass (full_hyp_pass_hyp; false only with a shared empty Graph "
+    "object). That passF's containers equal passW's is compared per pass (full_passW_compared), not proved; 'success => each "
+    "graph-like is sorted at the end' is per sort (C12_state_sort at the time of that sort); trees of different graph-likes are "
+    "disjoint in every generated model",
+    "heapq on (negative position, node) pairs is modelled as extract-maximum-position in the sort models; the binary heap itself "
+    "(heapify / heappush / heappop with _siftup / _siftdown, CPython's heapq.py; the C accelerator is the same algorithm) is "
+    "transcribed in Model/Heap.lean and compared with the real heapq step by step; proved: on a list with the heap invariant "
+    "heappop returns a minimum (C12_heappop_min_partial); NOT proved: that the sift operations re-establish the invariant "
+    "(evaluated after every operation: heap_hyp_invariant) - so 'extract-min' remains trusted to that extent. That no two queue "
+    "entries ever carry the same position (so heapq never compares two Node objects) follows from C12_ids_shared_raises / "
+    "C12_ids_refines (no node is queued twice). The dicts keyed by node are modelled twice: by position (sortModel, all correctness theorems) "
     "and by identity with a universe that may repeat a node (sortIds, the line-by-line transcription); C12_ids_refines proves "
     "them equal on well-formed trees, both are compared with the real sort on every case; dict insertion order is not used by "
     "steps 1-4, the iteration order of sorted_nodes_by_graph (from a set) is a parameter (`order`) every theorem quantifies over",
@@ -262,8 +294,16 @@ def gen_model_case(rng):
             add_edges(rng, root, rng.randrange(2, 6), ill=False)
         permute(rng, root, rng.choice(["rev", "shuffle", "shuffle", "mixed", "id"]))
         specs.append(root)
-    return {"entry": "model", "specs": specs, "spec": specs[0], "mode": "model", "perm": "mixed",
+    case = {"entry": "model", "specs": specs, "spec": specs[0], "mode": "model", "perm": "mixed",
             "variant": rng.randrange(4), "sub": rng.randrange(1 << 30), "shared": False, "steps": []}
+    r = rng.random()
+    if r < 0.12:
+        case["inj"] = {"kind": "unnamed", "seed": rng.randrange(1 << 20), "p": 0.3, "at": rng.randrange(k)}
+    elif r < 0.2:
+        case["inj"] = {"kind": "locked", "seed": rng.randrange(1 << 20), "p": 0.15, "at": rng.randrange(k)}
+    if rng.random() < 0.1:
+        case["journal"] = True
+    return case
 
 
 def do_model_case(case, part):
@@ -272,35 +312,89 @@ def do_model_case(case, part):
     import onnx_ir as ir
     from onnx_ir.passes.common.topological_sort import TopologicalSortPass
 
-    bs = [Built(spec, case["variant"], seed=case["sub"] + j) for j, spec in enumerate(case["specs"])]
-    funcs = [ir.Function("d", f"f{j}", graph=b.root, attributes=[]) for j, b in enumerate(bs[1:], start=1)]
-    model = ir.Model(bs[0].root, ir_version=10, functions=funcs)
-    before = [b.orders() for b in bs]
-    reqs = [b.encode(b.root) for b in bs]
-    trees = [[b.gidmap[id(g)] for g in tree_graphs(b, b.root)] for b in bs]
-    cyc = [flat_cycle(b, b.root) for b in bs]
+    import contextlib
+
+    _patch_containers()
+    t = Tracer(None)
+    Tracer.cur = t
     try:
-        TopologicalSortPass()(model)
-        outcome = "ok"
-    except ValueError:
-        outcome = "raised"
-    except Exception as e:  # noqa: BLE001
-        outcome = "raised:" + type(e).__name__
+        bs = [Built(spec, case["variant"], seed=case["sub"] + j) for j, spec in enumerate(case["specs"])]
+        funcs = [ir.Function("d", f"f{j}", graph=b.root, attributes=[]) for j, b in enumerate(bs[1:], start=1)]
+        model = ir.Model(bs[0].root, ir_version=10, functions=funcs)
+        inj_info = None
+        if case.get("inj"):
+            jb = case["inj"]["at"] % len(bs)
+            inj_info = inject(bs[jb], case, 0)
+        before = [b.orders() for b in bs]
+        nbefore = [name_state(b) for b in bs]
+        reqs = [b.encode(b.root) for b in bs]
+        trees = [[b.gidmap[id(g)] for g in tree_graphs(b, b.root)] for b in bs]
+        cyc = [flat_cycle(b, b.root) for b in bs]
+        t.events.append(world_tables(bs[0]))
+        recs_ev = t.recs_event()
+        t.events.append(recs_ev)
+        t.in_sort, t.trace, t.marks = True, [], []
+        if case.get("journal"):
+            from onnx_ir.journaling import Journal
+
+            ctxm = Journal()
+        else:
+            ctxm = contextlib.nullcontext()
+        try:
+            with ctxm:
+                TopologicalSortPass()(model)
+            outcome = "ok"
+        except ValueError:
+            outcome = "raised"
+        except Exception as e:  # noqa: BLE001
+            outcome = "raised:" + type(e).__name__
+        finally:
+            t.in_sort = False
+        trace = t.trace
+        wellformed = all(not (isinstance(x[1], list) and x[1] and isinstance(x[1][0], str)) for x in trace)
+        orders = []
+        for m in t.marks:
+            o = [x[0] for x in trace[m[0] : m[1]]]
+            orders.append(o if (m[2] and wellformed and len(set(o)) == len(o)) else None)
+        t.has_pass = True
+        t.events.append({"e": "pass", "roots": [t.gidx(b.root) for b in bs], "orders": orders})
+        o = {"out": OUTCOME_CODES.get(outcome, outcome), "trace": trace, "after": [[t.nid(n) for n in c] for c in t.conts], "pass": True}
+        o.update(t.observe_recs(recs_ev))
+        t.obs.append(o)
+    finally:
+        Tracer.cur = None
     after = [b.orders() for b in bs]
     n_nodes = sum(len(v) for o in before for v in o.values())
+    nested = sum(len(tr) - 1 for tr in trees)
     part.case(
-        {"specs": case["specs"], "entry": "model"},
+        {"specs": case["specs"], "entry": "model", "inj": case.get("inj"), "journal": bool(case.get("journal"))},
         nontrivial=n_nodes >= 2,
         sample={"graphs": reqs, "entry": "model", "outcome": outcome},
         mode="model", entry="model", outcome=outcome.split(":")[0], functions=len(funcs),
         model_cyclic_member=("none" if not any(cyc) else ("main" if cyc[0] else "function")),
+        model_nested_graphs=min(nested, 4), model_inj=(case["inj"]["kind"] if case.get("inj") else "none"),
+        journal=bool(case.get("journal")),
     )
     rec = {"case": case}
     sig = "TopologicalSortPass(model)"
+    nafter = [name_state(b) for b in bs]
+    if case.get("journal"):
+        part.count("model_journal")
+    has_locked = any(v.name is None and isinstance(v.const_value, RefusingTensor) for b in bs for n in b.node.values() for v in n.outputs)
+    if outcome == "raised:AttributeError" and has_locked:
+        # a later graph-like is rejected because a node cannot be re-added: the handler of the pass only catches
+        # ValueError, so graph-likes sorted earlier in the same call keep their new order (observation D391; the
+        # stateful model `passF` transcribes exactly that and is compared below)
+        part.count("observation=D391:pass-rejected-AttributeError:" + ("earlier-graphs-keep-new-order" if after != before else "nothing-changed"))
+        r = {"kind": "model-refused", "case": case, "outcome": outcome, "after": [{str(k): v for k, v in aft.items()} for aft in after],
+             "state": state_record(t)}
+        return {"recs": [r], "outcome": [outcome], "after": [r["after"]]}
     if outcome.startswith("raised:"):
         part.fail(f"{sig}:raises-{outcome[7:]}", f"pass raised {outcome[7:]}", rec)
         return None
     if outcome == "raised":
+        if nafter != nbefore and not (inj_info and inj_info["unnamed"]):
+            part.fail(f"{sig}:cycle-names-changed", "ValueError raised but names / node.graph / a name authority changed", rec)
         if not any(cyc):
             part.fail(f"{sig}:raise-without-cycle", "ValueError although no graph of the model has a cycle", rec)
         if after != before:
@@ -329,6 +423,7 @@ def do_model_case(case, part):
         "case": case,
         "outcome": outcome,
         "after": [{str(k): v for k, v in aft.items()} for aft in after],
+        "state": state_record(t),
     }
     return {"recs": [r], "outcome": [outcome], "after": [r["after"]]}
 
@@ -384,8 +479,43 @@ def gen_case(rng, quick=True):
     steps = []
     if not shared and rng.random() < 0.4:  # stateful: sort, edit the same objects, sort again ...
         steps = [rng.randrange(1 << 30) for _ in range(rng.choice([1, 2, 2, 3, 4]))]
-    return {"spec": root, "mode": mode, "perm": how, "entry": entry, "variant": variant, "sub": rng.randrange(1 << 30), "shared": shared,
+    case = {"spec": root, "mode": mode, "perm": how, "entry": entry, "variant": variant, "sub": rng.randrange(1 << 30), "shared": shared,
             "shared_depth": shared_depth, "steps": steps}
+    r = rng.random()
+    if r < 0.10:  # some nodes / outputs lose their names before every sort: the sort names them through the authority
+        case["inj"] = {"kind": "unnamed", "seed": rng.randrange(1 << 20), "p": rng.choice([0.15, 0.3, 0.6])}
+    elif r < 0.16 and not shared:  # an unnamed output whose tensor refuses a name: the sort must be rejected as a whole
+        case["inj"] = {"kind": "locked", "seed": rng.randrange(1 << 20), "p": rng.choice([0.0, 0.15, 0.3])}
+    if rng.random() < 0.08:  # the sort runs while a Journal records (journaling wrappers around Graph.extend / sort)
+        case["journal"] = True
+    return case
+
+
+def gen_nest_case(rng):
+    """an already sorted, well-scoped nest with captures: bodies whose nodes use values of enclosing graphs, and
+    independent earlier nodes in the enclosing graph (stability: the nest must come back exactly as it was, and a
+    shuffled copy must come back in an order that a second sort leaves alone)"""
+    sg = SpecGen(rng, rng.choice([1, 2, 2, 3]), rng.choice([3, 4, 5, 6]), rng.choice([0.5, 0.7]), "dag")
+    root = sg.graph(0, [])
+    how = rng.choice(["id", "id", "id", "swap"])
+    permute(rng, root, how)
+    case = {"spec": root, "mode": "nest", "perm": how, "entry": rng.choice(["graph", "graph", "function", "pass"]), "variant": rng.randrange(4),
+            "sub": rng.randrange(1 << 30), "shared": False, "shared_depth": 0, "steps": []}
+    if rng.random() < 0.15:
+        case["journal"] = True
+    return case
+
+
+def gen_graphnone_case(rng):
+    """invalid stream: a node whose `graph` attribute was set to None while its container still lists it"""
+    sg = SpecGen(rng, rng.choice([0, 1, 2]), rng.choice([2, 3, 4]), 0.5, rng.choice(["dag", "dag", "free"]))
+    root = sg.graph(0, [])
+    if sg.mode == "free":
+        add_edges(rng, root, rng.randrange(1, 3), ill=False)
+    how = rng.choice(["id", "rev", "shuffle"])
+    permute(rng, root, how)
+    return {"spec": root, "mode": "graph_none", "perm": how, "entry": rng.choice(["graph", "graph", "function"]), "variant": rng.randrange(4),
+            "sub": rng.randrange(1 << 30), "shared": False, "steps": [], "graph_none": rng.randrange(1 << 16)}
 
 
 def gen_selfnest_case(rng):
@@ -410,39 +540,164 @@ def gen_selfnest_case(rng):
 # --------------------------------------------------------------------------- container tracer (stateful model)
 
 
+class RefusingTensor:
+    """a TensorProtocol implementation whose `name` cannot be assigned (read-only property): a value backed by it that
+    has no name cannot be named by a graph (`_check_value_can_be_named`)"""
+
+    def __init__(self, name="ro"):
+        self._n = name
+        self.doc_string = None
+        self.metadata_props = {}
+        self.meta = {}
+        self.raw = None
+
+    @property
+    def name(self):
+        return self._n
+
+    @property
+    def shape(self):
+        import onnx_ir as ir
+
+        return ir.Shape([1])
+
+    @property
+    def dtype(self):
+        import onnx_ir as ir
+
+        return ir.DataType.FLOAT
+
+    @property
+    def size(self):
+        return 1
+
+    @property
+    def nbytes(self):
+        return 4
+
+    def numpy(self):
+        import numpy as np
+
+        return np.zeros(1, dtype=np.float32)
+
+    def __array__(self, dtype=None, copy=None):
+        return self.numpy()
+
+    def tobytes(self):
+        return b"\0\0\0\0"
+
+
 class Tracer:
     """Records every outermost public call on a `DoublyLinkedSet` (the node containers of the graphs) made while
     it is the current tracer: outside a sort as an event of the world's history, inside a sort as an entry of the
-    write trace of that sort.  The history is replayed on the stateful Lean model (`sort.state`: C11's pointer-level
-    containers, `sortW`), which must reproduce outcome, write trace and every container's sequence."""
+    write trace of that sort.  The history is replayed on the stateful Lean models (`sort.state`: C11's pointer-level
+    containers, `sortW`; `sort.full`: the same plus node.graph, names and name authorities, `sortF` / `passF`), which
+    must reproduce outcome, write trace, every container's sequence and (full) every name, `node.graph` and name
+    authority."""
 
     cur = None
+    ID_STRIDE = 100000
 
     def __init__(self, b):
-        self.b = b
+        self.bs = [] if b is None else [b]
         self.widx = {}  # id(container) -> world index
         self.conts = []  # keeps the containers alive (ids are not reused)
+        self.gobj = {}  # world index -> Graph object (when known)
         self.events = []
         self.obs = []
         self.in_sort = False
         self.trace = []
+        self.marks = []  # per Graph.sort call inside the traced call: [trace index at entry, at exit, ended normally]
         self.depth = 0
         self.bad = None  # why this history cannot be replayed on the model
+        self.vidx = {}  # id(value) -> value id
+        self.vobj = []
+        self.has_pass = False
 
-    def index_of(self, cont):
+    @property
+    def b(self):
+        return self.bs[0] if self.bs else None
+
+    @b.setter
+    def b(self, x):
+        if x is not None and all(x is not y for y in self.bs):
+            self.bs.append(x)
+
+    def index_of(self, cont, graph=None):
         k = self.widx.get(id(cont))
         if k is None:
             k = self.widx[id(cont)] = len(self.conts)
             self.conts.append(cont)
             self.events.append({"e": "new"})
+        if graph is not None:
+            self.gobj[k] = graph
         return k
 
+    def gidx(self, graph):
+        return None if graph is None else self.index_of(graph._nodes, graph)
+
     def nid(self, node):
-        i = self.b.nid.get(id(node))
-        if i is None:
-            self.bad = "a node unknown to the harness entered a container"
-            return 0
-        return i
+        for j, b in enumerate(self.bs):
+            i = b.nid.get(id(node))
+            if i is not None:
+                return j * self.ID_STRIDE + i
+        self.bad = "a node unknown to the harness entered a container"
+        return 0
+
+    def vid(self, value):
+        k = self.vidx.get(id(value))
+        if k is None:
+            k = self.vidx[id(value)] = len(self.vobj)
+            self.vobj.append(value)
+        return k
+
+    def all_nodes(self):
+        for j, b in enumerate(self.bs):
+            for i, node in sorted(b.node.items()):
+                yield j * self.ID_STRIDE + i, node
+
+    def all_graphs(self):
+        seen = set()
+        for b in self.bs:
+            for g in list(b.graph.values()) + list(getattr(b, "extra_graphs", [])):
+                if id(g) not in seen:
+                    seen.add(id(g))
+                    yield g
+
+    def recs_event(self):
+        """what the checking phase and the naming step of Graph.sort read, as it is now on the real objects"""
+        nodes, vals, seenv = [], [], set()
+        for i, node in self.all_nodes():
+            nodes.append([i, self.gidx(node.graph), node.name, node.op_type, [self.vid(v) for v in node.outputs]])
+            for v in node.outputs:
+                if id(v) in seenv:
+                    continue
+                seenv.add(id(v))
+                c = v.const_value
+                vals.append([self.vid(v), v.name, None if c is None else [isinstance(c, RefusingTensor), c.name], self.gidx(v.graph)])
+        auths = []
+        for g in self.all_graphs():
+            a = g._name_authority
+            auths.append([self.gidx(g), a._value_counter, a._node_counter, sorted(a._value_names), sorted(a._node_names)])
+        # the indices may have been assigned just now (new containers): the "new" events precede this one
+        return {"e": "recs", "nodes": nodes, "vals": vals, "auths": auths}
+
+    def observe_recs(self, ev):
+        nodes = []
+        byid = dict(self.all_nodes())
+        for rec in ev["nodes"]:
+            node = byid[rec[0]]
+            nodes.append([rec[0], self.gidx(node.graph), node.name])
+        vals = []
+        for rec in ev["vals"]:
+            v = self.vobj[rec[0]]
+            c = v.const_value
+            vals.append([rec[0], v.name, None if c is None else c.name])
+        auths = []
+        for rec in ev["auths"]:
+            a = self.gobj[rec[0]]._name_authority
+            auths.append([rec[0], a._value_counter, a._node_counter, sorted(a._value_names), sorted(a._node_names)])
+        return {"nodes": nodes, "vals": vals, "auths": auths}
 
     def record(self, cont, code, args, ok):
         k = self.index_of(cont)
@@ -506,6 +761,28 @@ def _patch_containers():
         wrap.__name__ = name
         setattr(cls, name, wrap)
 
+    from onnx_ir import _core
+
+    orig_sort = _core.Graph.sort
+
+    def sort(self, _orig=orig_sort):
+        """marks the part of the write trace that belongs to this Graph.sort call (a pass performs several)"""
+        t = Tracer.cur
+        if t is None or not t.in_sort:
+            return _orig(self)
+        m = [len(t.trace), None, False]
+        t.marks.append(m)
+        try:
+            r = _orig(self)
+            m[2] = True
+            return r
+        finally:
+            m[1] = len(t.trace)
+
+    sort.__name__ = "sort"
+    sort.__doc__ = orig_sort.__doc__
+    _core.Graph.sort = sort
+
 
 def world_tables(b):
     """input producers and graph-valued attributes of every node the harness knows, read off the real objects
@@ -513,7 +790,7 @@ def world_tables(b):
     ir = b.ir
     t = Tracer.cur
     ins, attrs = [], []
-    for nid_, node in sorted(b.node.items()):
+    for nid_, node in t.all_nodes():
         ps = []
         for v in node.inputs:
             p = None if v is None else v.producer()
@@ -524,34 +801,77 @@ def world_tables(b):
             if not isinstance(attr, ir.Attr) or attr.is_ref() or attr.value is None:
                 continue
             if attr.type == ir.AttributeType.GRAPH:
-                al.append({"g": t.index_of(attr.value._nodes)})
+                al.append({"g": t.gidx(attr.value)})
             elif attr.type == ir.AttributeType.GRAPHS:
-                al.append({"gs": [t.index_of(g._nodes) for g in attr.value]})
+                al.append({"gs": [t.gidx(g) for g in attr.value]})
         if al:
             attrs.append([nid_, al])
     return {"e": "tables", "ins": ins, "attrs": attrs}
 
 
+OUTCOME_CODES = {"ok": "ok", "raised": "valueError", "raised:RecursionError": "recursionError",
+                 "raised:AssertionError": "assertionError", "raised:AttributeError": "refused"}
+
+
 def traced_sort(b, case, root):
-    """run the real sort; when a tracer is current, log the tables + the sort as events of the history and
-    record what the real objects show: outcome, write trace, every container's sequence"""
+    """run the real sort; when a tracer is current, log the tables + the records + the sort (or the pass) as events of
+    the history and record what the real objects show: outcome, write trace, every container's sequence, node.graph,
+    names, name authorities"""
     t = Tracer.cur
     if t is None:
         return run_real(b, case, root)
+    k = t.gidx(root)
+    is_pass = case["entry"] == "pass"
+    pre = {}
+    if is_pass:
+        pre = prepare_pass(b, case)
     t.events.append(world_tables(b))
-    k = t.index_of(root._nodes)
-    t.in_sort, t.trace = True, []
+    recs = t.recs_event()
+    t.events.append(recs)
+    t.in_sort, t.trace, t.marks = True, [], []
     try:
-        roots, outcome = run_real(b, case, root)
+        roots, outcome = run_real(b, case, root, pre)
     finally:
         t.in_sort = False
     trace = t.trace
     wellformed = all(not (isinstance(x[1], list) and x[1] and isinstance(x[1][0], str)) for x in trace)
-    order = [x[0] for x in trace]
-    t.events.append({"e": "sort", "g": k, "order": order if (outcome == "ok" and wellformed and len(set(order)) == len(order)) else None})
-    out = {"ok": "ok", "raised": "valueError", "raised:RecursionError": "recursionError"}.get(outcome, outcome)
-    t.obs.append({"out": out, "trace": trace, "after": [[t.nid(n) for n in c] for c in t.conts]})
+    if is_pass:
+        t.has_pass = True
+        orders = []
+        for m in t.marks:
+            o = [x[0] for x in trace[m[0] : m[1]]]
+            orders.append(o if (m[2] and wellformed and len(set(o)) == len(o)) else None)
+        t.events.append({"e": "pass", "roots": [t.gidx(g) for g in pre["sortables"]], "orders": orders})
+    else:
+        order = [x[0] for x in trace]
+        t.events.append({"e": "sort", "g": k, "order": order if (outcome == "ok" and wellformed and len(set(order)) == len(order)) else None})
+    out = OUTCOME_CODES.get(outcome, outcome)
+    o = {"out": out, "trace": trace, "after": [[t.nid(n) for n in c] for c in t.conts], "pass": is_pass}
+    o.update(t.observe_recs(recs))
+    t.obs.append(o)
     return roots, outcome
+
+
+def prepare_pass(b, case):
+    """the model the pass entry point runs on (built before the tables are read, so that its objects are part of the
+    traced world): the tree under test as main graph, or as the body of a function next to a trivial main graph"""
+    ir = b.ir
+    if case["sub"] % 2:
+        x = ir.Value(name="main_x")
+        new_id = max(b.node) + 1 if b.node else 0
+        nmain = ir.Node("", "Id", [x], name="main_n")
+        b.nid[id(nmain)] = new_id
+        b.node[new_id] = nmain
+        main = ir.Graph([x], nmain.outputs, nodes=[nmain], name="main")
+        b.extra_graphs.append(main)
+        f = ir.Function("d", "f", graph=b.root, attributes=[])
+        model = ir.Model(main, ir_version=10, functions=[f])
+        sortables = [main, b.root]
+    else:
+        model = ir.Model(b.root, ir_version=10)
+        sortables = [b.root]
+    b.keep.append(model)
+    return {"model": model, "sortables": sortables}
 
 
 # --------------------------------------------------------------------------- real objects
@@ -571,12 +891,13 @@ class Built:
         self.ir = ir
         self.ref_mismatch = False
         self.nid = {}  # id(node obj) -> spec id
-        if Tracer.cur is not None and Tracer.cur.b is None:
+        if Tracer.cur is not None:
             Tracer.cur.b = self  # container calls made while the objects are built belong to this history
         self.gidmap = {}  # id(graph obj) -> gid
         self.node = {}  # spec id -> node obj
         self.graph = {}  # gid -> graph obj
         self.keep = []
+        self.extra_graphs = []  # graphs created around the spec's graphs (the trivial main graph of a pass case)
         rng = random.Random(seed)
         self.vals = {}
         all_nodes = list(walk_nodes(spec))
@@ -855,40 +1176,94 @@ def pick_root(b: Built, case):
     return b.root
 
 
-def run_real(b: Built, case, root=None):
-    """call the real sort through the requested entry point; returns (sorted root graph objects, outcome)"""
+def run_real(b: Built, case, root=None, pre=None):
+    """call the real sort through the requested entry point; returns (sorted root graph objects, outcome).
+    `case["journal"]`: the call is made while a `Journal` records (the journaling wrappers replace Graph.extend,
+    Graph.sort ... by recording versions)"""
+    import contextlib
+
     ir = b.ir
     entry = case["entry"]
     roots = [b.root]
-    try:
-        if entry == "graph":
-            b.root.sort()
-        elif entry == "function":
-            f = ir.Function("d", "f", graph=b.root, attributes=[])
-            b.keep.append(f)
-            f.sort()
-        elif entry == "pass":
-            from onnx_ir.passes.common.topological_sort import TopologicalSortPass
+    if case.get("journal"):
+        from onnx_ir.journaling import Journal
 
-            if case["sub"] % 2:
-                # the tree under test is a function body; the main graph is a trivial graph
-                x = ir.Value(name="main_x")
-                nmain = ir.Node("", "Id", [x], name="main_n")
-                main = ir.Graph([x], nmain.outputs, nodes=[nmain], name="main")
+        ctxm = Journal()
+    else:
+        ctxm = contextlib.nullcontext()
+    try:
+        with ctxm:
+            if entry == "graph":
+                b.root.sort()
+            elif entry == "function":
                 f = ir.Function("d", "f", graph=b.root, attributes=[])
-                model = ir.Model(main, ir_version=10, functions=[f])
-            else:
-                model = ir.Model(b.root, ir_version=10)
-            b.keep.append(model)
-            TopologicalSortPass()(model)
-        elif entry == "subgraph":
-            roots = [root if root is not None else pick_root(b, case)]
-            roots[0].sort()
+                b.keep.append(f)
+                f.sort()
+            elif entry == "pass":
+                from onnx_ir.passes.common.topological_sort import TopologicalSortPass
+
+                if pre is None:
+                    pre = prepare_pass(b, case)
+                TopologicalSortPass()(pre["model"])
+            elif entry == "subgraph":
+                roots = [root if root is not None else pick_root(b, case)]
+                roots[0].sort()
         return roots, "ok"
     except ValueError:
         return roots, "raised"
     except Exception as e:  # noqa: BLE001
         return roots, "raised:" + type(e).__name__
+
+
+def name_state(b: Built):
+    """everything besides the node orders that a rejected sort must leave alone: node.graph, node / value / tensor names,
+    the name authorities (oracle side; independent of the tracer)"""
+    st = {"nodes": {}, "vals": {}, "auth": {}}
+    extra = {id(g) for g in b.extra_graphs}
+    for i, node in b.node.items():
+        if id(node.graph) in extra:  # the trivial main graph a pass case is wrapped in
+            continue
+        st["nodes"][i] = (b.gidmap.get(id(node.graph), "?") if node.graph is not None else None, node.name)
+        for k, v in enumerate(node.outputs):
+            c = v.const_value
+            st["vals"][(i, k)] = (v.name, None if c is None else c.name)
+    for gid, g in b.graph.items():
+        a = g._name_authority
+        st["auth"][gid] = (a._value_counter, a._node_counter, tuple(sorted(a._value_names)), tuple(sorted(a._node_names)))
+    return st
+
+
+def inject(b: Built, case, step):
+    """deliberate edits before a sort (public API only): `unnamed` - some nodes / node outputs lose their names (the sort
+    has to name them again through the name authority); `locked` - additionally one unnamed output is backed by a tensor
+    that refuses a name: `_check_node_can_be_added` must reject the whole sort before anything is written (fix D89)"""
+    import random
+
+    inj = case.get("inj")
+    if not inj:
+        return None
+    rng = random.Random(inj["seed"] * 7919 + step)
+    nodes = _uniq(_pre(b, b.root))
+    if not nodes:
+        return None
+    n_un = 0
+    for n in nodes:
+        if rng.random() < inj.get("p", 0.3):
+            n.name = None
+            n_un += 1
+        for v in n.outputs:
+            if rng.random() < inj.get("p", 0.3) and not v.is_initializer():
+                v.name = None
+                n_un += 1
+    locked = 0
+    if inj["kind"] == "locked":
+        cands = [v for n in nodes for v in n.outputs if not v.is_initializer()]
+        if cands:
+            v = rng.choice(cands)
+            v.name = None
+            v.const_value = RefusingTensor(f"ro{step}")
+            locked = 1
+    return {"unnamed": n_un, "locked": locked}
 
 
 def _uniq(objs):
@@ -980,7 +1355,11 @@ def apply_edit(b: Built, seed):
             gr.append(node)
         return f"insert n{new_id} into g{b.gidmap[id(gr)]}"
     if kind in ("move", "swap") and nodes:
-        m = rng.choice(nodes)
+        # (a node with an unnamed output whose tensor refuses a name can be removed but never added again)
+        movable = [n for n in nodes if not any(v.name is None and isinstance(v.const_value, RefusingTensor) for v in n.outputs)]
+        if not movable:
+            return "noop"
+        m = rng.choice(movable)
         inside = {id(g) for g in tree_graphs_of_node(b, m)}
         targets = [g for g in graphs if id(g) not in inside]
         if kind == "swap":
@@ -1011,12 +1390,14 @@ def do_case(case, part):
     if case["entry"] == "model":
         return do_model_case(case, part)
     _patch_containers()
-    t = Tracer(None) if case["entry"] != "pass" else None
+    t = Tracer(None)
     Tracer.cur = t
     try:
         if case.get("selfnest"):
             return do_selfnest_case(case, part, t)
         b = Built(case["spec"], case["variant"], seed=case["sub"])
+        if case.get("graph_none") is not None:
+            return do_graphnone_case(case, part, t, b)
         root = pick_root(b, case)
         recs = []
         r = sort_step(b, case, root, part, 0, [])
@@ -1032,9 +1413,35 @@ def do_case(case, part):
             recs.append(r)
     finally:
         Tracer.cur = None
-    if t is not None:
-        recs[0]["state"] = {"req": {"m": "sort.state", "events": t.events}, "obs": t.obs, "bad": t.bad}
+    recs[0]["state"] = state_record(t)
     return {"recs": recs, "outcome": [x["outcome"] for x in recs], "after": [x["after"] for x in recs]}
+
+
+def state_record(t):
+    return {"req": {"m": "sort.full", "events": t.events}, "obs": t.obs, "bad": t.bad, "has_pass": t.has_pass}
+
+
+def do_graphnone_case(case, part, t, b):
+    """invalid stream: `node.graph = None` on a node that a container still lists (ownership inconsistent, C01's
+    subject): `assert current_node.graph is not None` fails when the node is popped - or the cycle test fails first; either
+    way nothing may be written.  Compared with `sortF` (outcome `assertionError`)."""
+    ids = sorted(b.node)
+    node = b.node[ids[case["graph_none"] % len(ids)]]
+    node.graph = None
+    before, nbefore = b.orders(), name_state(b)
+    _roots, outcome = traced_sort(b, case, b.root)
+    after, nafter = b.orders(), name_state(b)
+    part.case(
+        {"spec": case["spec"], "entry": case["entry"], "graph_none": case["graph_none"]},
+        nontrivial=True,
+        sample={"graph_none": case["graph_none"], "entry": case["entry"], "outcome": outcome},
+        mode="graph_none", entry=case["entry"], graph_none_outcome=outcome,
+    )
+    sig_entry = {"graph": "Graph.sort", "function": "Function.sort"}[case["entry"]]
+    if outcome != "ok" and (after != before or nafter != nbefore):
+        part.fail(f"{sig_entry}:node-graph-none:changed", "sort raised on a node without graph but something was written", {"case": case})
+    rec = {"kind": "selfnest", "case": case, "outcome": outcome, "after": {str(k): v for k, v in after.items()}, "state": state_record(t)}
+    return {"recs": [rec], "outcome": [outcome], "after": [rec["after"]]}
 
 
 def do_selfnest_case(case, part, t):
@@ -1059,7 +1466,7 @@ def do_selfnest_case(case, part, t):
     if after != before:
         part.fail(f"{sig_entry}:self-nested:changed", "sort of a graph nested in itself changed some graph's order", {"case": case})
     rec = {"kind": "selfnest", "case": case, "outcome": outcome, "after": {str(k): v for k, v in after.items()},
-           "state": {"req": {"m": "sort.state", "events": t.events}, "obs": t.obs, "bad": t.bad}}
+           "state": state_record(t)}
     return {"recs": [rec], "outcome": [outcome], "after": [rec["after"]]}
 
 
@@ -1067,7 +1474,9 @@ def sort_step(b: Built, case, root, part, step, edits):
     """snapshot, encode, run the real sort, evaluate the oracle; returns the model request + observation"""
     spec = case["spec"]
     entry = case["entry"]
+    inj_info = inject(b, case, step)
     before = b.orders()
+    nbefore = name_state(b)
     req_graph = b.encode(root)
     tree = [b.gidmap[id(g)] for g in tree_graphs(b, root)]
     pre_universe = [[b.nid[id(n)], b.gidmap[id(n.graph)]] for g in [root] for n in _pre(b, g)]
@@ -1100,8 +1509,13 @@ def sort_step(b: Built, case, root, part, step, edits):
         part.disagree("encoding not well formed (duplicate node or graph id): hypothesis WF of the theorems", {"case": case})
     _roots, outcome = traced_sort(b, case, root)
     after = b.orders()
+    nafter = name_state(b)
     canon = {"spec": spec, "entry": entry, "sub": case["sub"] if entry == "subgraph" else 0,
              "steps": (case.get("steps") or [])[:step]}
+    if case.get("inj"):
+        canon["inj"] = case["inj"]
+    if case.get("journal"):
+        canon["journal"] = True
     part.case(
         canon,
         nontrivial=n_nodes >= 2,
@@ -1119,6 +1533,10 @@ def sort_step(b: Built, case, root, part, step, edits):
         fixpoint_clause=("checked" if ws and outcome == "ok" and any(pre_ordered.values()) else "n/a"),
         step=step,
         capture_after_owner=min(capture_after_owner, 3),
+        journal=bool(case.get("journal")),
+        inj=(case["inj"]["kind"] if case.get("inj") else "none"),
+        inj_unnamed=(min(inj_info["unnamed"], 4) if inj_info else 0),
+        inj_locked=(inj_info["locked"] if inj_info else 0),
     )
     if edits:
         part.count("edit=" + edits[-1].split("(")[0].split(" ")[0])
@@ -1126,6 +1544,24 @@ def sort_step(b: Built, case, root, part, step, edits):
     sig_entry = {"graph": "Graph.sort", "function": "Function.sort", "pass": "TopologicalSortPass", "subgraph": "Graph.sort(subgraph)"}[entry]
 
     # ---- oracle
+    has_locked = any(
+        v.name is None and isinstance(v.const_value, RefusingTensor) for n in _uniq(_pre(b, root)) for v in n.outputs
+    )
+    if outcome == "raised:AttributeError" and has_locked:
+        # a node that cannot be re-added (unnamed output whose tensor refuses a name): the checking phase of fix D89
+        # rejects the whole sort; NOTHING may have been written: orders, node.graph, names, name authorities
+        if after != before:
+            part.fail(f"{sig_entry}:refused:order-changed", "sort rejected a node that cannot be re-added but some graph's order changed", rec)
+        if nafter != nbefore:
+            if entry == "pass":
+                # the pass met a cycle (ValueError) and its restore loop `graph_like.extend(original_nodes)` was itself
+                # rejected at the graph holding the refusing tensor: graph-likes restored before it got their unnamed
+                # nodes named, the caller sees AttributeError instead of ValueError (observation, see D391.md)
+                part.count("observation=D391:pass-restore-loop-rejected:names-assigned")
+            else:
+                part.fail(f"{sig_entry}:refused:names-changed", "sort rejected a node that cannot be re-added but names / node.graph / a name authority changed", rec)
+        return {"kind": "refused", "case": case if step == 0 else dict(case, at_step=step, edits=edits), "outcome": outcome,
+                "after": {str(k): v for k, v in after.items()}}
     if refg:
         # graph-typed reference attribute: the unfixed traversal iterated `None` (D46, fixed by 31ed6b5)
         if outcome.startswith("raised:"):
@@ -1136,6 +1572,29 @@ def sort_step(b: Built, case, root, part, step, edits):
     if outcome.startswith("raised:"):
         part.fail(f"{sig_entry}:raises-{outcome[7:]}", f"sort raised {outcome[7:]} (only ValueError on a cycle is allowed)", rec)
         return None
+    if outcome == "ok" and has_locked and entry != "subgraph":
+        part.fail(f"{sig_entry}:locked-not-refused", "an unnamed output backed by a tensor that refuses a name was accepted", rec)
+    # node.graph never changes; a node / value that had a name keeps it
+    for i, (g0, nm0) in nbefore["nodes"].items():
+        g1, nm1 = nafter["nodes"].get(i, (None, None))
+        if g1 != g0:
+            part.fail(f"{sig_entry}:node-graph-changed", "sort changed node.graph", rec)
+            break
+        if nm0 is not None and nm1 != nm0:
+            part.fail(f"{sig_entry}:node-renamed", "sort changed the name of a named node", rec)
+            break
+    for key, (nm0, _t0) in nbefore["vals"].items():
+        if nm0 is not None and nafter["vals"].get(key, (None, None))[0] != nm0:
+            part.fail(f"{sig_entry}:value-renamed", "sort changed the name of a named value", rec)
+            break
+    if outcome == "raised" and nafter != nbefore and not (entry == "pass" and inj_info and inj_info["unnamed"]):
+        # (the restore step of the pass re-extends every recorded graph: unnamed nodes get names there)
+        part.fail(f"{sig_entry}:cycle-names-changed", "ValueError raised but names / a name authority changed", rec)
+    if outcome == "ok":
+        for n in _uniq(_pre(b, root)):
+            if n.name is None or any(v.name is None for v in n.outputs):
+                part.fail(f"{sig_entry}:unnamed-after-sort", "a node or node output of the sorted nest has no name after a successful sort", rec)
+                break
     # each graph keeps exactly its own nodes (graphs outside the sorted tree: untouched)
     for gid in before:
         if gid in tree:
@@ -1145,6 +1604,8 @@ def sort_step(b: Built, case, root, part, step, edits):
             part.fail(f"{sig_entry}:outside-changed", "a graph outside the sorted tree changed", rec)
     for nid_, node in b.node.items():  # node.graph still names the graph whose list holds the node
         gobj = node.graph
+        if gobj is not None and any(gobj is g for g in b.extra_graphs):
+            continue
         if gobj is None or b.nid[id(node)] not in after.get(b.gidmap.get(id(gobj), -1), []):
             part.fail(f"{sig_entry}:node-graph-mismatch", "node.graph does not name the graph that lists the node", rec)
             break
@@ -1319,10 +1780,11 @@ def check_cases(ctx: Ctx, cases: list) -> None:
         mrecs += [r for r in out if r.get("kind") == "model"]
         srecs += [r for r in out if r.get("state") is not None]
     skipped = ctx.dist.get("cases_skipped_time_budget", 0)
-    ctx.extra["cases_skipped_time_budget"] = ctx.extra.get("cases_skipped_time_budget", 0) + skipped
+    newly_skipped = skipped - ctx.extra.get("cases_skipped_time_budget", 0)  # (ctx.dist is cumulative over the blocks)
+    ctx.extra["cases_skipped_time_budget"] = skipped
     ctx.extra["hang_retries"] = ctx.dist.get("hang_retries", 0)
-    if skipped:
-        ctx.notes.append(f"{skipped} generated cases were NOT run: per-chunk time budget exhausted (pathologically slow real code or overloaded machine)")
+    if newly_skipped:
+        ctx.notes.append(f"{newly_skipped} generated cases were NOT run: per-chunk time budget exhausted (pathologically slow real code or overloaded machine)")
     for r, o in zip(mrecs, lean_batch_parallel([r["req"] for r in mrecs])):
         # TopologicalSortPass on main graph + functions vs `passEffect` (model of call() with fix D201)
         if o.get("raised") != r["impl_raised"]:
@@ -1333,6 +1795,7 @@ def check_cases(ctx: Ctx, cases: list) -> None:
                 what += " — the pass is not atomic: graphs sorted before the failing one keep their new order (D201 regressed)"
             ctx.disagree(what, r["case"], o.get("after"), r["impl_after"])
     check_state(ctx, srecs)
+    check_full(ctx, srecs)
     reqs = [r["req"] for r in recs] + [r["ureq"] for r in recs] + [r["hreq"] for r in recs]
     outs = lean_batch_parallel(reqs)
     n = len(recs)
@@ -1364,13 +1827,15 @@ def check_state(ctx: Ctx, srecs: list) -> None:
     write trace (which container received which `extend`, in the order the code performed them) and the node
     sequence of EVERY container of the world afterwards must coincide; the hypotheses of `C12_state_sort`
     (containers satisfy C11's invariant, re-link order is an arrangement of the keys) are evaluated per sort"""
-    good = [r for r in srecs if not r["state"]["bad"]]
+    good = [r for r in srecs if not r["state"]["bad"] and not r["state"]["has_pass"]
+            and all(x["out"] in ("ok", "valueError", "recursionError") for x in r["state"]["obs"])]
     for r in srecs:
         if r["state"]["bad"]:
             ctx.count("state_history_not_replayable")
             if len(ctx.notes) < 5:
                 ctx.notes.append("stateful history not replayed: " + r["state"]["bad"])
-    outs = lean_batch_parallel([r["state"]["req"] for r in good])
+    # the container-level model: the same history without the records of nodes / values / name authorities
+    outs = lean_batch_parallel([{"m": "sort.state", "events": [e for e in r["state"]["req"]["events"] if e["e"] != "recs"]} for r in good])
     for r, o in zip(good, outs):
         obs, sorts = r["state"]["obs"], o.get("sorts")
         ctx.count("state_histories")
@@ -1396,6 +1861,117 @@ def check_state(ctx: Ctx, srecs: list) -> None:
                 ctx.disagree("sort.state: node sequence of some container after the sort differs", case, m.get("after"), x["after"])
             if not m.get("inv"):
                 ctx.disagree("sort.state: a container of the model violates C11's representation invariant", case, False, True)
+
+
+def check_full(ctx: Ctx, srecs: list) -> None:
+    """whole histories replayed on the FULL stateful model (`sortF` / `passF`: containers at pointer level + node.graph,
+    node / value / tensor names, name authorities, the checking phase of fix D89): per sort or pass the outcome (incl.
+    `refused`, `assertionError`), the write trace, every container's sequence, node.graph and name of every node, name
+    of every node output and of its backing tensor, counters and name sets of every name authority must coincide.
+    Hypotheses evaluated and published: `Consistent` (C12_full_refines_state), `passHypB` (C12_state_pass_atomic)."""
+    good = [r for r in srecs if not r["state"]["bad"]]
+    outs = lean_batch_parallel([r["state"]["req"] for r in good])
+    for r, o in zip(good, outs):
+        obs, sorts = r["state"]["obs"], o.get("sorts")
+        ctx.count("full_histories")
+        if sorts is None or len(sorts) != len(obs):
+            ctx.disagree("sort.full: number of sorts differs / driver error", r["case"], str(o)[:300], len(obs))
+            continue
+        for i, (m, x) in enumerate(zip(sorts, obs)):
+            kind = "pass" if x["pass"] else "sort"
+            ctx.count(f"full_{kind}s")
+            ctx.count(f"full_{kind}_out=" + str(x["out"]))
+            if x["pass"]:
+                ctx.count("full_hyp_pass_hyp=" + str(m.get("pass_hyp")))
+                ctx.count("full_pass_restored_graph_likes=" + str(min(len(m.get("gls") or []), 6) if x["out"] == "valueError" else "n/a"))
+            else:
+                ctx.count("full_hyp_consistent=" + str(m.get("consistent")))
+            ctx.count("full_hyp_order_is_arrangement=" + str(m.get("order_ok")))
+            case = dict(r["case"], full_sort=i)
+            if m.get("out") != x["out"]:
+                ctx.disagree(f"sort.full: outcome of the {kind} differs (sortF / passF)", case, m.get("out"), x["out"])
+                continue
+            if m.get("out") == "late":
+                ctx.disagree("sort.full: the model ended `late` (excluded by C12_full_no_late)", case, "late", x["out"])
+            mt, xt = m.get("trace"), x["trace"]
+            if (mt != xt) if m.get("order_ok") else (sorted(mt) != sorted(xt)):
+                what = f"sort.full: write trace of the {kind} differs (which container is extended with what)"
+                if x["out"] not in ("ok",) and not x["pass"] and xt:
+                    what += " - the real sort wrote to a container although it raised"
+                ctx.disagree(what, case, mt, xt)
+            if m.get("after") != x["after"]:
+                ctx.disagree(f"sort.full: node sequence of some container after the {kind} differs", case, m.get("after"), x["after"])
+            for key, what in (("nodes", "node.graph / node.name"), ("vals", "name of a node output / of its backing tensor"),
+                              ("auths", "a name authority (counters, name sets)")):
+                if m.get(key) != x[key]:
+                    bad = [(a, b_) for a, b_ in zip(m.get(key) or [], x[key]) if a != b_][:3]
+                    ctx.disagree(f"sort.full: {what} after the {kind} differs", case, bad, None)
+            if not m.get("inv"):
+                ctx.disagree("sort.full: a container of the model violates C11's representation invariant", case, False, True)
+            if x["pass"]:
+                # the container-level pass model the theorem C12_state_pass_atomic is about, on the same history
+                if m.get("out") in ("ok", "valueError", "recursionError"):
+                    if m.get("w_out") != m.get("out") or m.get("w_after") != x["after"] or m.get("w_trace") != mt:
+                        ctx.disagree("sort.full: passW (containers only) differs from the real pass", case,
+                                     [m.get("w_out"), m.get("w_after")], [x["out"], x["after"]])
+                    ctx.count("full_passW_compared")
+            elif m.get("consistent") and m.get("out") in ("ok", "valueError", "recursionError") and m.get("sw_out") != m.get("out"):
+                ctx.disagree("sort.full: sortW differs from sortF on a consistent world (C12_full_refines_state)", case, m.get("sw_out"), m.get("out"))
+
+
+def heap_cases(ctx: Ctx) -> None:
+    """`heapq.heapify / heappush / heappop` vs the transcription `Model/Heap.lean` on distinct keys (what Graph.sort feeds
+    it: one entry per node, keyed by the negative position): the list after every operation, every popped key; the
+    heap invariant is evaluated on the model's list after every operation (hypothesis of C12_heappop_min_partial) and
+    the oracle checks on the real list that every pop returns the minimum"""
+    import heapq
+
+    reqs, impls, cases = [], [], []
+    for _ in range(ctx.pick(300, 3000)):
+        n = ctx.rng.randrange(0, 24)
+        keys = ctx.rng.sample(range(64), n)
+        k0 = ctx.rng.randrange(0, n + 1)
+        init, rest = keys[:k0], keys[k0:]
+        ops, h = [], list(init)
+        heapq.heapify(h)
+        steps = []
+        impl0 = list(h)
+        case = {"heap": {"init": init, "ops": ops}}
+        while rest or h:
+            if rest and (not h or ctx.rng.random() < 0.5):
+                x = rest.pop()
+                heapq.heappush(h, x)
+                ops.append(["push", x])
+                steps.append({"heap": list(h)})
+            else:
+                m = min(h)
+                x = heapq.heappop(h)
+                if x != m:
+                    ctx.fail("heapq.heappop:not-min", "heappop did not return the smallest key", case)
+                ops.append(["pop"])
+                steps.append({"heap": list(h), "pop": x})
+        if ctx.rng.random() < 0.3:
+            ops.append(["pop"])  # pop from the empty heap: IndexError
+            steps.append({"heap": [], "pop": None})
+        reqs.append({"m": "sort.heap", "init": init, "ops": ops})
+        impls.append((impl0, steps))
+        cases.append(case)
+    outs = lean_batch_parallel(reqs)
+    for case, (impl0, steps), out in zip(cases, impls, outs):
+        ctx.case(case, nontrivial=len(case["heap"]["ops"]) > 1, fn="heap", heap_ops=min(len(case["heap"]["ops"]), 40) // 8 * 8)
+        if out.get("heap0") != impl0:
+            ctx.disagree("sort.heap: heapify differs", case, out.get("heap0"), impl0)
+        ms = out.get("steps") or []
+        if len(ms) != len(steps):
+            ctx.disagree("sort.heap: number of steps differs / driver error", case, str(out)[:200], len(steps))
+            continue
+        for m, x in zip(ms, steps):
+            if m.get("heap") != x["heap"] or ("pop" in x and m.get("pop") != x["pop"]):
+                ctx.disagree("sort.heap: list after the operation / popped key differs", case, m, x)
+                break
+            ctx.count("heap_hyp_invariant=" + str(m.get("inv")))
+            if "pop" in x and x["pop"] is not None and m.get("min") != x["pop"]:
+                ctx.disagree("sort.heap: the popped key is not the minimum of the model's list", case, m, x)
 
 
 def exhaustive_small(ctx: Ctx) -> list:
@@ -1484,7 +2060,17 @@ def run(ctx: Ctx) -> None:
         cases.append(gen_model_case(ctx.rng))
     for _ in range(ctx.pick(150, 1500)):
         cases.append(gen_selfnest_case(ctx.rng))
-    check_cases(ctx, cases)
+    for _ in range(ctx.pick(500, 5000)):
+        cases.append(gen_nest_case(ctx.rng))
+    for _ in range(ctx.pick(100, 1000)):
+        cases.append(gen_graphnone_case(ctx.rng))
+    # in blocks: the traced histories (events + observations of every sort) of a block are dropped before the next one
+    # is generated (thorough tier: ~200k cases; one block kept the parent at ~16 GB)
+    block = 16000
+    for i in range(0, len(cases), block):
+        check_cases(ctx, cases[i : i + block])
+        gc.collect()
+    heap_cases(ctx)
     relink_cases(ctx)
 
 
